@@ -256,7 +256,7 @@ def World.getFields (env : Env) : Nat → World → Exc → World × Fields
         let g := World.getFields env fuel w1 e'
         (g.1.logNoSer env "eliot:traceback" (tracebackFields env e' g.2), [])
 
-def FUEL : Nat := 3
+def FUEL : Nat := 8
 
 /-- `write_traceback(logger)` for the exception being handled. -/
 def World.writeTraceback (env : Env) (w : World) (e : Exc) : World :=
